@@ -152,7 +152,7 @@ theorem node_bound {vk : String → List String} {v : Visitor σ} (hv : NonEditi
   | succ d ih =>
     intro w c key parent anc path r hkd h
     have hsz := one_le_size c
-    simp only [specNode] at h
+    simp only [specNode, specBody] at h
     have hne := hv w.s ⟨.enter, c, key, parent, path, anc⟩
     rcases hcall : v w.s ⟨.enter, c, key, parent, path, anc⟩ with ⟨a, s1⟩
     rw [hcall] at hne h
